@@ -122,6 +122,13 @@ TEMPLATES = [
     ("explicit-error", "def f ( x ) do if x > 1 then error:P 'boom' ; x end ; f:s0 (:S0 5 )"),
     ("two-frames", "def g ( y ) y + UNDEF:P ; def f ( x ) g:s0 (:S0 x ) ; f:s1 (:S1 1 )"),
     ("type-error", "def a:A = 1 ; a:A -:P 'x'"),
+    ("add-chain", "def a:A = 1 ; a:A + 2 + 3 -:P 'x'"),
+    ("add-chain-2", "def a = 1 ; 5:A - a -:P 'x' + 1"),
+    ("mul-chain", "def a = 4 ; a:A * 2 /:P 0 * 3"),
+    ("mul-in-add", "def a = 4 ; 1:A + a %:P 0 + 2"),
+    ("rel-chain", "def a = 4 ; 1 < a and a:A -:P 'x' < 2"),
+    ("call-chain", "def f ( x ) x ; def a = f ( 1 ) + f ( UNDEF2:P ) ; a"),
+    ("nested-args", "def f ( x , y ) x ; f ( 1 , [ 2 , ZQ:P ] )"),
     ("bad-index", "def l = [ 1 , 2 ] ; l:A [:P 5 ]"),
     ("non-boolean-if", "def t = 3 ; if:P t then 2 else 3"),
     ("iterate-int", "for:P x in 5 do 1 end"),
